@@ -358,9 +358,13 @@ func stripTsig(msg []byte) ([]byte, *TSIG, error) {
 		return nil, nil, err
 	}
 
-	rr := new(TSIG)
+	var rr *TSIG
 	var extra RR
 	for i := 0; i < int(dh.Arcount); i++ {
+		if off == len(msg) {
+			// Fewer records than ARCOUNT claims.
+			break
+		}
 		tsigoff = off
 		extra, off, err = UnpackRR(msg, off)
 		if err != nil {
